@@ -63,7 +63,7 @@ Definition so3_log (c : vec) : vec :=
                                then katan2 F (- sin_angle) (- cos_angle)
                                else katan2 F sin_angle cos_angle) in
       two_angle / sin_angle
-    else kz 2 in
+    else (if kltb F (qw c) (kz 0) then kz (-2) else kz 2) in
   vscale_r v log_coeff.
 
 (* I + 0.5 W + (1/theta2 - (1+cos theta)/(2 theta sin theta)) W W   (log's own Jacobian code) *)
